@@ -404,6 +404,33 @@ func Catalogue(r *Rng, img []byte) []Mutation {
 			})
 		}
 	}
+	if free >= 0 {
+		// a second descriptor with the ID of a signed object, in its group, over other bytes
+		// (another object's data), with and without the header's free count following
+		n := 0
+		for _, i := range used {
+			for _, j := range used {
+				di, dj := si.Descs[i], si.Descs[j]
+				if i == j || di.Type == DataSignature || dj.Size == 0 || di.GroupID() == 0 || n >= 4 {
+					continue
+				}
+				n++
+				i, dj := i, dj
+				for _, fixHeader := range []bool{true, false} {
+					fixHeader := fixHeader
+					mut(fmt.Sprintf("desc%d copied into free slot %d with the same ID over the data of object %d (header count updated: %v)", i, free, dj.ID, fixHeader), func(b []byte) {
+						copy(b[doff(free):], img[doff(i):doff(i)+DescSize])
+						putLE(b, doff(free)+17, 8, uint64(dj.Off))
+						putLE(b, doff(free)+25, 8, uint64(dj.Size))
+						putLE(b, doff(free)+33, 8, uint64(dj.Size))
+						if fixHeader {
+							putLE(b, 80, 8, uint64(si.H.Free-1))
+						}
+					})
+				}
+			}
+		}
+	}
 	// header fields
 	for _, hm := range []struct {
 		what string
